@@ -171,9 +171,8 @@ class LinearFilter:
             data *= self.fkernel
             data = fft.irfftn(data) / self.norms[self.normalization]
             gc.collect()
-            _dslice = [slice(0, self.bshape[i], 1) for i in range(3)]
             if self.scale != 1:
-                data = self.scale * data[_dslice]
+                data = self.scale * data
             if self.location != 0.0:
                 data += self.location
             gc.collect()
